@@ -166,7 +166,10 @@ def c18_extra(pid, tier, seed):
                                rule='1-3 waiters (offsets below/at/above NextOffset and relative), 0-2 Set, 0-2 Close; random interleavings '
                                     'of the pause-delimited steps incl. cancellations; after the schedule the status of every thread '
                                     '(returned value / still parked / pause point) must equal the model'))
-        return viol, cov
+        import blk
+        bviol, bcov = blk.run(pid, tier, seed)
+        cov.update(bcov)
+        return viol + bviol, cov
     finally:
         if not os.environ.get('KV_KEEP'):
             shutil.rmtree(d, ignore_errors=True)
